@@ -12,6 +12,7 @@ explicitly.  Lemmas live in `DuneVerif/Proofs/C15*.lean`; every `example` shows 
 it are satisfied by a concrete non-trivial input.
 -/
 import DuneVerif.Proofs.C15Pool
+import DuneVerif.Proofs.C15Intr
 import DuneVerif.Proofs.C15Raw
 
 namespace DV.C15
@@ -160,6 +161,38 @@ example : Valid ⟨16, 48, 3⟩ Pool.empty
 
 -- giving back a block twice is NOT a valid history (the second release is of a block that is not live)
 example : ¬ Valid ⟨16, 48, 3⟩ Pool.empty [.alloc, .free (.blk (0, 0)), .free (.blk (0, 0))] := by decide
+
+/-! ## Pool<T,s>: the intrusive free list -/
+
+/-- the pool as the C++ stores it — `head_` plus the `next_` word inside every free slot (`IPool`, a transcription of
+    `grow`/`allocate`/`free`) — behaves exactly like the list model in every valid history, whatever the owners write
+    into their live blocks in between: it never uses a word it has not written itself (`irun … ≠ none`: no undefined
+    behaviour), it refuses the same requests and returns the same blocks, and afterwards `head_` and the `next_` words
+    spell the model's free list (`Sim`), with the same chunk list and live set.  Hence every theorem above about `run`
+    is a theorem about the intrusive pool, and live blocks are writable over their whole extent without damaging
+    the allocator. -/
+theorem intrusive_pool_refines {g : Geo} (hg : GeoOK g) (iops : List IOp) (hv : IValid g Pool.empty iops) :
+    Valid g Pool.empty (eraseWrites iops) ∧
+    ∃ ip, irun g IPool.empty iops = some (ip, (run g Pool.empty (eraseWrites iops)).2) ∧
+      Sim ip (run g Pool.empty (eraseWrites iops)).1 :=
+  ⟨valid_erase iops _ hv, sim_run hg iops _ _ sim_empty (inv_empty _) hv⟩
+
+-- owners scribble over their blocks (also over the word that was `next_`), one block is released and reused
+example : IValid ⟨16, 48, 3⟩ Pool.empty
+      [.op .alloc, .write (0, 0) (some (7, 7)), .op .alloc, .op (.free (.blk (0, 0))), .write (0, 1) none, .op .alloc,
+       .op .alloc, .op .alloc] ∧
+    (irun ⟨16, 48, 3⟩ IPool.empty
+      [.op .alloc, .write (0, 0) (some (7, 7)), .op .alloc, .op (.free (.blk (0, 0))), .write (0, 1) none, .op .alloc,
+       .op .alloc, .op .alloc]).map (·.2) =
+      some [.ret (0, 0), .ret (0, 1), .freed (.blk (0, 0)), .ret (0, 0), .ret (0, 2), .ret (1, 0)] := by
+  refine ⟨?_, by decide⟩
+  simp only [IValid, okOp]
+  decide
+
+-- the hypothesis is needed: a write into a block that has been given back (use after free) redirects the free list,
+-- and the pool then follows a word it never wrote — undefined behaviour (`none`)
+example : irun ⟨16, 48, 3⟩ IPool.empty
+    [.op .alloc, .op (.free (.blk (0, 0))), .write (0, 0) (some (9, 9)), .op .alloc, .op .alloc] = none := by decide
 
 /-- end to end for the generated geometry of `Pool<T,s>`: after every valid history, for every placement of the chunks
     that `operator new` may choose, every live block is aligned for `T`, lies inside its chunk with room for a `T`,
